@@ -256,11 +256,24 @@ Qed.
    of the package there is a generated file with exactly the declared messages and enums, every
    field with the declared name, JSON name, number, type, cardinality and optionality, every
    inline type nested under the documented name - to any depth *)
+Lemma compile_package_inv bd pkg D :
+  compile_package snake camel screaming bd pkg = Ok D ->
+  exists fs, convert_package snake camel screaming bd pkg = Ok fs /\
+             nodup_str (package_symbols bd pkg fs) = true /\
+             link_files fs = Ok D /\
+             link_closure snake camel screaming (S (length bd)) bd (flat_map fl_deps fs) (map fl_path fs) = Ok tt.
+Proof.
+  unfold compile_package. intros H. apply obind_ok in H. destruct H as (fs & E & H).
+  destruct (nodup_str (package_symbols bd pkg fs)) eqn:Hs; cbn [negb] in H; [|discriminate].
+  apply obind_ok in H. destruct H as (linked & E0 & H). apply obind_ok in H. destruct H as ([] & E1 & H).
+  inversion H. subst. exists fs. auto.
+Qed.
+
 Theorem compile_sound bd pkg D :
   compile_package snake camel screaming bd pkg = Ok D ->
   package_contract snake camel screaming bd pkg D.
 Proof.
-  unfold compile_package, convert_package. intros H. inv_ok H. inversion H. subst D. clear H.
+  intros H. apply compile_package_inv in H. destruct H as (a & E & _ & E0 & _). unfold convert_package in E.
   intros f Hin Hp. pose proof (in_pkg_files _ _ _ Hin Hp) as Hpf.
   destruct (pkg_files bd pkg) as [|x r] eqn:Epf; [destruct Hpf|].
   destruct (cv_files_main _ _ _ _ E Hpf) as (df & Hd & Hok).
